@@ -670,6 +670,20 @@ impl ToProj for CTryFromValidated {
     }
 }
 
+/// container `from` (by reference) followed by `validate`
+#[derive(Deserr, Debug)]
+#[deserr(from(&Vec<u8>) = cfrom_vec, validate = vf::val_leaves -> vf::ValErr)]
+pub struct CFromValidated(pub Vec<u8>);
+fn cfrom_vec(v: &Vec<u8>) -> CFromValidated {
+    log_call("wrap_id", format!("{:?}", v.to_proj()), None);
+    CFromValidated(v.clone())
+}
+impl ToProj for CFromValidated {
+    fn to_proj(&self) -> Proj {
+        self.0.to_proj()
+    }
+}
+
 // ---------------------------------------------------------------------------------- enums
 #[derive(Deserr, Debug)]
 #[deserr(tag = "type")]
@@ -1088,6 +1102,7 @@ pub fn defs() -> Defs {
     }));
     d.add(Def::Conv(ConvDef { name: "CFrom".into(), inter: Ty::Str, conv: Conv::From("str_to_wrap".into()), validate: None }));
     d.add(Def::Conv(ConvDef { name: "CTryFrom".into(), inter: Ty::Str, conv: Conv::TryFrom("try_nonempty".into()), validate: None }));
+    d.add(Def::Conv(ConvDef { name: "CFromValidated".into(), inter: vec(u(8)), conv: Conv::From("wrap_id".into()), validate: Some("val_leaves".into()) }));
     d.add(Def::Conv(ConvDef {
         name: "CTryFromValidated".into(),
         inter: vec(u(8)),
@@ -1319,6 +1334,7 @@ pub fn registry() -> Registry {
     r.all::<ValidatedEnum>("ValidatedEnum", named("ValidatedEnum"), &["derive", "conv", "validate", "enum"]);
     r.all::<CFrom>("CFrom", named("CFrom"), &["derive", "conv"]);
     r.all::<CTryFrom>("CTryFrom", named("CTryFrom"), &["derive", "conv"]);
+    r.all::<CFromValidated>("CFromValidated", named("CFromValidated"), &["derive", "conv", "validate"]);
     r.all::<CTryFromValidated>("CTryFromValidated", named("CTryFromValidated"), &["derive", "conv", "validate"]);
     r.all::<TagBasic>("TagBasic", named("TagBasic"), &["derive", "enum"]);
     r.all::<TagRenames>("TagRenames", named("TagRenames"), &["derive", "enum", "rename"]);
